@@ -5,6 +5,7 @@ mod util;
 mod c12;
 mod c14;
 mod c16;
+mod c17;
 mod c18;
 
 use serde_json::{json, Value};
@@ -19,6 +20,7 @@ fn dispatch(case: &Value) -> Value {
         "c12" => c12::run(k, case),
         "c14" => c14::run(k, case),
         "c16" => c16::run(k, case),
+        "c17" => c17::run(k, case),
         "c18" => c18::run(k, case),
         _ => json!({"unknown": k}),
     }
